@@ -176,6 +176,28 @@ def lean_imports_closure(module):
     return sorted(seen)
 
 
+def gen_modules_needed(prop):
+    """Names X of every generated module ColoVerif.Gen.X imported (transitively) by the property's
+    theorem file or driver: their translators must run before lake does, whether or not the
+    property's own GEN list names them (a property can import another property's theorems)."""
+    seen, todo, gens = set(), ["ColoVerif.Properties." + prop, "Driver." + prop], set()
+    while todo:
+        m = todo.pop()
+        if m in seen:
+            continue
+        seen.add(m)
+        if m.startswith("ColoVerif.Gen."):
+            gens.add(m.split(".")[-1])
+            continue
+        p = os.path.join(LEAN_SRC, *m.split(".")) + ".lean"
+        if not os.path.exists(p):
+            continue
+        for mm in re.findall(r"^\s*(?:public\s+)?import\s+([\w.]+)", open(p).read(), re.M):
+            if mm.startswith("ColoVerif.") or mm.startswith("Driver."):
+                todo.append(mm)
+    return sorted(gens)
+
+
 def grep_forbidden(modules):
     hits = []
     for m in modules:
